@@ -259,6 +259,53 @@ def rule_single_source(rep, repo, mod):
                 instance=qcls)
 
 
+  # a quantizer CONSTRUCTED with use_variables=True: once it has been called
+  # (the lazy build) its factor is a variable initialised from the
+  # constructor's value, update_qnoise_factor(g) writes that same variable,
+  # and the next call blends with g
+  for qcls in KNOB_CLASSES:
+    ci = qm.classes.get(qcls)
+    if ci is None or "use_variables" not in [p_ for p_, _ in
+                                             ci.init_params()[0]]:
+      continue
+    unit3 = "%s::%s" % (qm.relpath, qcls)
+    pe = PE(repo)
+    try:
+      q = pe.call(pe.lookup_global(qcls, qm), [], {
+          "use_variables": True, "qnoise_factor": F(1, 4)})
+      pe.call(q, [pe.x_input()], {})
+    except PyRaise:
+      continue
+    v = q.attrs.get("qnoise_factor")
+    rep.check(isinstance(v, Var) and Fwd()(v.term) == NF.const(F(1, 4)),
+              "R2", unit3, "use_variables-ignored",
+              "%s(use_variables=True, qnoise_factor=1/4) holds %r as its "
+              "factor after the first call, not a tf.Variable with that "
+              "value: update_qnoise_factor() then only rebinds a python "
+              "attribute and never reaches a traced step" % (qcls, v),
+              loc=ci.loc(), instance=qcls)
+    if isinstance(v, Var):
+      g = Tensor(("sym", "g"), ())
+      try:
+        pe.call(pe.getattr(q, "update_qnoise_factor"), [g], {})
+        out = pe.call(q, [pe.x_input()], {})
+      except PyRaise as e:
+        rep.fail("R2", unit3, "update-raises", "raises %s" % e,
+                 instance=qcls)
+        continue
+      rep.check(q.attrs.get("qnoise_factor") is v and
+                Fwd()(v.term) == NF.sym("g") and
+                Fwd()(out.term).depends_on(("sym", "g")), "R2", unit3,
+                "update-does-not-write-the-variable",
+                "%s(use_variables=True): after update_qnoise_factor(g) the "
+                "variable holds %s (same object: %s) and the next output "
+                "%s g" % (qcls, show(Fwd()(v.term)),
+                          q.attrs.get("qnoise_factor") is v,
+                          "reads" if Fwd()(out.term).depends_on(
+                              ("sym", "g")) else "does not read"),
+                loc=ci.loc(), instance=qcls)
+
+
 # ---------------------------------------------------------------------------
 # scheduler
 
